@@ -61,7 +61,7 @@ MECH = ["nutree.tree:Tree.__enter__", "nutree.tree:Tree.__exit__", "nutree.tree:
 MIN_NONTRIVIAL = {"quick": 200, "thorough": 900}
 MIN_COUNTERS = {"quick": {"blocked_events": 150, "snapshots_checked": 1000}, "thorough": {"blocked_events": 1500, "snapshots_checked": 20000}}
 
-OPS = ["save_stream", "save_path", "save_zip", "copy", "filtered", "copy_pred", "copy_to", "to_dict_list", "to_dotfile", "with"]
+OPS = ["save_stream", "save_path", "save_zip", "copy", "filtered", "copy_pred", "copy_to", "to_dict_list", "to_dotfile", "to_dotfile_path", "with"]
 OPS_WITH_CALLBACK = ["save_stream", "filtered", "copy_pred", "to_dict_list", "to_dotfile"]
 STYLES = ["relabel", "rebuild", "mixed"]
 G, C = 3, 3  # groups x children
@@ -154,9 +154,23 @@ def build_tree(ver):
     from nutree import Tree
     from nutree.typed_tree import TypedTree
 
-    t = (TypedTree if TYPED["on"] else Tree)("shared")
+    if TYPED.get("fs"):
+        from nutree.fs import FileSystemTree
+
+        t = FileSystemTree("shared")
+    else:
+        t = (TypedTree if TYPED["on"] else Tree)("shared")
     fill(t, ver)
     return t
+
+
+def _data(label):
+    """the data object for a label: the label itself, or (file-system trees) an entry named like it"""
+    if TYPED.get("fs"):
+        from nutree.fs import FileSystemEntry
+
+        return FileSystemEntry(label, size=len(label), mdate=1.5)
+    return label
 
 
 def _kw(ver):
@@ -167,9 +181,9 @@ def fill(t, ver, only_group=None, before=None):
     for g in range(G):
         if only_group is not None and g != only_group:
             continue
-        top = t.add(f"g{g}@v{ver}", data_id=f"g{g}", before=before, **_kw(ver))
+        top = t.add(_data(f"g{g}@v{ver}"), data_id=f"g{g}", before=before, **_kw(ver))
         for c in range(C):
-            top.add(f"g{g}c{c}@v{ver}", data_id=f"g{g}c{c}", **_kw(ver))
+            top.add(_data(f"g{g}c{c}@v{ver}"), data_id=f"g{g}c{c}", **_kw(ver))
 
 
 def writer_steps(t, style, ver):
@@ -180,7 +194,7 @@ def writer_steps(t, style, ver):
         def relabel(name):
             def f():
                 n = t.find_first(data_id=name)
-                n.set_data(f"{name}@v{new}", data_id=name)
+                n.set_data(_data(f"{name}@v{new}"), data_id=name)
             return f
 
         steps = [relabel(nm) for nm in ALLNAMES]
@@ -194,7 +208,7 @@ def writer_steps(t, style, ver):
             if not nm.startswith("g0"):
                 def f(nm=nm):
                     n = t.find_first(data_id=nm)
-                    n.set_data(f"{nm}@v{new}", data_id=nm)
+                    n.set_data(_data(f"{nm}@v{new}"), data_id=nm)
                 steps.append(f)
         steps.append(lambda: fill(t, new, only_group=0, before=True))
     return steps
@@ -210,6 +224,73 @@ def interleaving_signature(log, roles):
             continue
         seq.append((e[1], roles.get(e[2], "other")))
     return hashlib.blake2b(repr(seq).encode(), digest_size=6).hexdigest()
+
+
+# ------------------------------------------------------------------------------------
+# access monitor: "do not read the tree until the lock is released" observed directly.  Every read or write of a node's child
+# list (the slot `Node._children`, which every traversal, copy and export has to go through) is attributed to the calling
+# thread; an access to a node of the watched tree by a thread that does not own the tree lock, while another thread does, is
+# a read inside somebody else's critical section - whatever the result of the operation looks like afterwards.
+# ------------------------------------------------------------------------------------
+ACCESS = {"installed": None, "tree": None, "threads": (), "foreign": [], "n": 0}
+
+
+def install_access_monitor():
+    if ACCESS["installed"] is not None:
+        return ACCESS["installed"]
+    from nutree.node import Node
+
+    orig = Node.__dict__.get("_children")
+    if orig is None or not hasattr(orig, "__get__") or not hasattr(orig, "__set__"):
+        ACCESS["installed"] = False
+        return False
+
+    def note(obj, kind):
+        tree = ACCESS["tree"]
+        if tree is None:
+            return
+        try:
+            if obj._tree is not tree:
+                return
+        except Exception:
+            return
+        me = threading.get_ident()
+        if me not in ACCESS["threads"]:
+            return
+        ACCESS["n"] += 1
+        owner = getattr(tree._lock, "_owner", None)
+        if owner is not None and owner != me and len(ACCESS["foreign"]) < 20:
+            import sys as _sys
+
+            fr = _sys._getframe(2)
+            chain = []
+            while fr is not None and len(chain) < 4:
+                if "nutree" in fr.f_code.co_filename:
+                    chain.append(f"{os.path.basename(fr.f_code.co_filename)}:{fr.f_code.co_name}:{fr.f_lineno}")
+                fr = fr.f_back
+            ACCESS["foreign"].append((me, kind, " <- ".join(chain)))
+
+    class _Watched:
+        def __get__(self, obj, cls=None):
+            if obj is None:
+                return self
+            note(obj, "read")
+            return orig.__get__(obj, cls)
+
+        def __set__(self, obj, value):
+            note(obj, "write")
+            orig.__set__(obj, value)
+
+        def __delete__(self, obj):
+            orig.__delete__(obj)
+
+    Node._children = _Watched()
+    ACCESS["installed"] = True
+    return True
+
+
+def watch_accesses(tree, thread_ids):
+    ACCESS["tree"], ACCESS["threads"], ACCESS["foreign"], ACCESS["n"] = tree, tuple(thread_ids), [], 0
 
 
 def attach_log(t, log):
@@ -245,6 +326,9 @@ def labels_of(op, result):
         doc = json.loads(result)
         out = []
         for pidx, data in doc["nodes"]:
+            if TYPED.get("fs") and isinstance(data, dict):
+                out.append(data.get("n"))
+                continue
             out.append(data["s"] if isinstance(data, dict) and "s" in data else data.get("str") if isinstance(data, dict) else data)
         return out
     if op in ("copy", "filtered", "copy_pred", "copy_to", "with"):
@@ -259,13 +343,17 @@ def labels_of(op, result):
 
         rec(result)
         return out
-    if op == "to_dotfile":
+    if op in ("to_dotfile", "to_dotfile_path"):
         return [m for m in re.findall(r'label="([^"]*)"', result) if "@v" in m]
     raise KeyError(op)
 
 
 def check_snapshot(labels, allowed_versions):
     """Returns None if the labels form exactly one committed state, else a message."""
+    labels = [getattr(l, "name", l) if type(l).__name__ == "FileSystemEntry" else l for l in labels]
+    if TYPED.get("fs"):
+        # str(entry) / dict entries of the file-system mappers: pick the name out of the rendering
+        labels = [(re.search(r"g\d(?:c\d)?@v\d+", l).group(0) if isinstance(l, str) and re.search(r"g\d(?:c\d)?@v\d+", l) else l) for l in labels]
     try:
         vers = {l.split("@v")[1] for l in labels}
         nms = sorted(l.split("@v")[0] for l in labels)
@@ -360,6 +448,13 @@ def run_op(op, t, tmpdir, hook=None, dst=None):
         else:
             t.to_dotfile(fp)
         return fp.getvalue()
+    if op == "to_dotfile_path":
+        from pathlib import Path
+
+        pth = os.path.join(tmpdir, f"d{threading.get_ident()}.gv")
+        t.to_dotfile(pth if threading.get_ident() % 2 else Path(pth))
+        with open(pth, encoding="utf8") as fp:
+            return fp.read()
     if op == "with":
         with t:
             return [n.data for n in t]
@@ -414,6 +509,9 @@ def schedule_A(case, res):
         tids = [th.ident for th in threads]
         me = threading.get_ident()
         timed_out = False
+        monitored = install_access_monitor() and isinstance(t._lock, __import__("vmon.locktrack", fromlist=["Tracked"]).Tracked)
+        if monitored:
+            watch_accesses(t, tids)  # the readers are still parked at `go`
 
         def body():
             nonlocal timed_out
@@ -469,6 +567,13 @@ def schedule_A(case, res):
             bad.append("deadlock among the library's locks: " + locktrack.DEADLOCKS[0])
             del locktrack.DEADLOCKS[:]
         bad += werr
+        if monitored:
+            res.count("monitored_child_list_accesses", ACCESS["n"])
+            res.count("schedules_under_access_monitor")
+            for tid, kind, where in ACCESS["foreign"][:1]:
+                bad.append(f"{op}: a reader thread touched the tree ({kind} of a node's child list in {where}) while another thread was inside "
+                           f"`with tree:` - {len(ACCESS['foreign'])} such accesses before the lock was released")
+            watch_accesses(None, ())
         if timed_out or wt.is_alive() or any(th.is_alive() for th in threads):
             if not bad:
                 res.inconc("schedule A: watchdog fired")
@@ -1190,6 +1295,7 @@ def stress(case, res):
 
 def run_case(case, res):
     TYPED["on"] = bool(case.get("typed"))
+    TYPED["fs"] = bool(case.get("fs"))
     try:
         return _run_case(case, res)
     finally:
@@ -1282,6 +1388,11 @@ def all_points(tier):
             for style in STYLES:
                 for phase in ((0, 2) if tier == "quick" else (0, 1, 2, 3)):
                     pts.append({"kind": "D", "nest": nest, "exc": exc, "style": style, "phase": phase})
+    fs_pts = []
+    for op in ("save_stream", "save_path", "save_zip", "copy", "copy_to", "to_dict_list", "to_dotfile_path", "with"):
+        for style in (("rebuild",) if tier == "quick" else STYLES):
+            for phase in ((2,) if tier == "quick" else (0, 1, 2, 3)):
+                fs_pts.append({"kind": "A", "op": op, "style": style, "phase": phase, "nest": 1, "readers": 2, "fs": True})
     # the same schedule points on a TypedTree whose kinds change from version to version (rebuild/mixed styles)
     typed_pts = []
     for pt in pts:
@@ -1291,7 +1402,7 @@ def all_points(tier):
             continue  # TypedTree.save() writes its output while it still holds the lock: there is no unlocked output phase
         if pt["kind"] in ("C", "D", "F", "R") or (pt.get("style") in ("rebuild", "mixed") and (tier != "quick" or pt.get("phase", 1) in (1, 2) or pt["kind"] == "B")):
             typed_pts.append({**pt, "typed": True})
-    return pts + typed_pts
+    return pts + typed_pts + fs_pts
 
 
 def shards(tier, seed):
